@@ -33,7 +33,8 @@ def cases(rng, tier):
     for i in range(n):
         a = G.gen_array(rng, depth=rng.choice([1, 2, 3, 3, 4]), canonical_too=False, special=False,
                         type_kw=dict(allow_union=False, allow_str=False, leaf_dtypes=LEAVES,
-                                     allow_rec=False))
+                                     allow_rec=False),
+                        enc_kw=dict(strided=0.12, weird_empty=0.05))
         t = a['type']
         red = rng.choice(REDUCERS)
         axis = G.pick_axis(rng, t, allow_zero=True)
